@@ -3291,10 +3291,6 @@ RCP<const Basic> Beta::create(const RCP<const Basic> &a,
 RCP<const Basic> beta(const RCP<const Basic> &x, const RCP<const Basic> &y)
 {
     // Only special values are being evaluated
-    if (eq(*add(x, y), *one)) {
-        return ComplexInf;
-    }
-
     if (is_a<Integer>(*x)) {
         RCP<const Integer> x_int = rcp_static_cast<const Integer>(x);
         if (x_int->is_positive()) {
@@ -3352,8 +3348,13 @@ RCP<const Basic> beta(const RCP<const Basic> &x, const RCP<const Basic> &y)
         if (is_a<const Rational>(*y)
             and get_den((down_cast<const Rational &>(*y)).as_rational_class())
                     == 2) {
+            // x + y is an integer; 1/gamma vanishes at the non-positive ones
+            RCP<const Basic> s = add(x, y);
+            if (not down_cast<const Integer &>(*s).is_positive()) {
+                return zero;
+            }
             return div(mul(gamma_multiple_2(x), gamma_multiple_2(y)),
-                       gamma_positive_int(add(x, y)));
+                       gamma_positive_int(s));
         }
     }
     return Beta::from_two_basic(x, y);
